@@ -511,7 +511,7 @@ def corpus_charts():
                     continue
                 root = etree.fromstring(sh.chart.part.blob)
                 kind, tags = x_kind(root)
-                out.append([rel, si, hi, kind, tags, len(x_all_sers(root))])
+                out.append([rel, si, hi, kind, tags, len(x_all_sers(root)), [len(x_sers(xc)) for xc in x_xcharts(root)]])
     _cache["corpus"] = out
     return out
 
@@ -838,6 +838,8 @@ def jobs(tier):
     for kind, n in (("category", 4), ("xy", 2), ("bubble", 2)):
         for sh in range(n):
             js.append({"kind": "corpus", "data_kind": kind, "shard": sh, "n": 600 if thorough else 40})
+    # the corpus charts that have more than one plot get cases of their own
+    js.append({"kind": "corpus", "data_kind": "category", "shard": 99, "n": 300 if thorough else 30, "multiplot": True})
     js.append({"kind": "types"})
     return js
 
@@ -858,14 +860,37 @@ def _gen_strategy(type_name):
     })
 
 
-def _corpus_strategy(kind):
+def _corpus_strategy(kind, multiplot=False):
     from hypothesis import strategies as st
 
-    charts = [c for c in corpus_charts() if c[3] == kind and c[4] and c[4][0] in API_PLOT_TAGS]
+    charts = [c for c in corpus_charts() if c[3] == kind and c[4] and c[4][0] in API_PLOT_TAGS
+              and (not multiplot or len(c[6]) > 1)]
     if not charts:
         return None
-    return st.tuples(st.sampled_from(charts), st.lists(cdm.chart_data(kind, min_series=1, max_points=120),
-                                                       min_size=1, max_size=3)).map(
+    def repl(c):
+        free = st.lists(cdm.chart_data(kind, min_series=1, max_points=120), min_size=1, max_size=3)
+        per_plot = c[6]
+        if len(per_plot) < 2:
+            return free
+        # a chart with several plots: half of the time the first replacement has exactly as many series as the
+        # first k plots hold (the cut between surplus and surviving series falls on a plot boundary)
+        bounds = sorted({sum(per_plot[:k]) for k in range(1, len(per_plot))} | {sum(per_plot), sum(per_plot) + 1})
+        def exactly(t):
+            n, desc = t
+            desc = dict(desc)
+            ser = [dict(x) for x in desc["series"]]
+            while len(ser) < n:
+                extra = dict(ser[len(ser) % max(1, len(desc["series"]))])
+                extra["name"] = "%s #%d" % (extra.get("name"), len(ser))
+                ser.append(extra)
+            desc["series"] = ser[:n]
+            return desc
+
+        first = st.tuples(st.sampled_from(bounds), cdm.chart_data(kind, min_series=1, max_points=40)).map(exactly)
+        return st.one_of(free, st.tuples(first, st.lists(cdm.chart_data(kind, min_series=1, max_points=60), max_size=2)).map(
+            lambda t: [t[0]] + t[1]))
+
+    return st.sampled_from(charts).flatmap(lambda c: st.tuples(st.just(c), repl(c))).map(
         lambda t: {"mode": "corpus", "deck": t[0][0], "slide": t[0][1], "shape": t[0][2], "kind": t[0][3],
                    "n_series": t[0][5], "replacements": t[1], "decorate": [0, 1, 5, 15][(len(t[1]) + t[0][1] + t[0][2]) % 4]})
 
@@ -892,7 +917,7 @@ def run_job(job, seed, tier, rec, known):
     if job["kind"] == "gen":
         strat = _gen_strategy(job["type"])
     else:
-        strat = _corpus_strategy(job["data_kind"])
+        strat = _corpus_strategy(job["data_kind"], job.get("multiplot", False))
         if strat is None:
             return []
 
